@@ -7,6 +7,7 @@ import (
 	"os"
 	"os/exec"
 	"path/filepath"
+	"regexp"
 	"sort"
 	"strings"
 
@@ -24,7 +25,7 @@ func init() {
 // c18Serve: child process — a posix gateway on a loopback TCP port (the "other S3 endpoint").
 func c18Serve(r *ck.Run) {
 	dir := os.Getenv("VERIF_C18_DIR")
-	g, err := gw.New(gw.Opts{Dir: dir})
+	g, err := gw.New(gw.Opts{Dir: dir, Versioning: true})
 	if err != nil {
 		ck.Fatal("serve: %v", err)
 	}
@@ -141,10 +142,12 @@ func (e *c18Env) Close() {
 
 // reset wipes the endpoint's buckets (its accounts stay).
 func (e *c18Env) reset() {
-	root := filepath.Join(e.dir, "root")
-	ents, _ := os.ReadDir(root)
-	for _, en := range ents {
-		os.RemoveAll(filepath.Join(root, en.Name()))
+	for _, sub := range []string{"root", "ver"} {
+		root := filepath.Join(e.dir, sub)
+		ents, _ := os.ReadDir(root)
+		for _, en := range ents {
+			os.RemoveAll(filepath.Join(root, en.Name()))
+		}
 	}
 }
 
@@ -195,6 +198,15 @@ func c18Ops(thorough bool) []c18Op {
 			return NewReq("PUT", gw.ObjPath(c18B, "k1"), "tagging", nil, []byte(tag))
 		}},
 		{Name: "DeleteObjectTagging", Req: func(map[string]string) *gw.Req { return NewReq("DELETE", gw.ObjPath(c18B, "k1"), "tagging", nil, nil) }},
+		{Name: "PutObjectTagging empty tag set", Req: func(map[string]string) *gw.Req {
+			return NewReq("PUT", gw.ObjPath(c18B, "k1"), "tagging", nil, []byte("<Tagging><TagSet></TagSet></Tagging>"))
+		}},
+		{Name: "PutBucketVersioning Enabled", Req: func(map[string]string) *gw.Req {
+			return NewReq("PUT", "/"+c18B, "versioning", nil, []byte("<VersioningConfiguration><Status>Enabled</Status></VersioningConfiguration>"))
+		}},
+		{Name: "DeleteObject versionId=null", Req: func(map[string]string) *gw.Req {
+			return NewReq("DELETE", gw.ObjPath(c18B, "k1"), gw.Q("versionId", "null"), nil, nil)
+		}},
 		{Name: "PutBucketTagging", Req: func(map[string]string) *gw.Req { return NewReq("PUT", "/"+c18B, "tagging", nil, []byte(tag)) }},
 		{Name: "DeleteBucketTagging", Req: func(map[string]string) *gw.Req { return NewReq("DELETE", "/"+c18B, "tagging", nil, nil) }},
 		{Name: "PutBucketPolicy", Req: func(map[string]string) *gw.Req { return NewReq("PUT", "/"+c18B, "policy", nil, []byte(pol)) }},
@@ -268,6 +280,9 @@ func c18Observers(st map[string]string) []*gw.Req {
 		NewReq("GET", "/"+c18B, "policy", nil, nil),
 		NewReq("GET", "/"+c18B, "acl", nil, nil),
 		NewReq("GET", "/"+c18B, "versioning", nil, nil),
+		NewReq("GET", "/"+c18B, "versions", nil, nil),
+		NewReq("GET", gw.ObjPath(c18B, "k1"), gw.Q("versionId", "null"), nil, nil),
+		NewReq("HEAD", gw.ObjPath(c18B, "k1"), gw.Q("versionId", "null"), nil, nil),
 		NewReq("GET", gw.ObjPath(c18B, "k1"), "attributes", H("x-amz-object-attributes", "ETag,ObjectSize"), nil),
 	}
 }
@@ -302,7 +317,18 @@ func c18Canon(resp *gw.Resp, st map[string]string) string {
 	if up := st["upload"]; up != "" {
 		body = strings.ReplaceAll(body, up, "<upload>")
 	}
+	body = maskVersionIds(body)
 	body = sortTags(body)
+	if strings.Contains(resp.Header.Get("Content-Type"), "xml") {
+		// an element that is present but empty says the same as an absent one
+		for {
+			n := c18EmptyElem.ReplaceAllString(body, "")
+			if n == body {
+				break
+			}
+			body = n
+		}
+	}
 	if len(body) > 4096 {
 		body = fmt.Sprintf("len=%d sha=%s", len(body), hashS([]byte(body)))
 	}
@@ -384,7 +410,7 @@ func C18(r *ck.Run) {
 	if r.Thorough() {
 		depth = 3
 	}
-	r.Rule(fmt.Sprintf("every program of length <= %d over 23 (27 thorough) bucket, object, tagging, policy, listing and multipart operations (three of them signed with a wrong secret) is executed twice from an empty store: through a gateway whose backend is s3proxy pointed at an endpoint process (a posix versitygw on loopback TCP), and against that endpoint directly; after every step 20 read requests (GET whole / ranges, HEAD, attributes, tagging, listings v1/v2 with prefix / delimiter / max-keys, uploads, parts, bucket tagging / policy / ACL / versioning) are issued on both sides and every response (status, error code, content headers, user metadata, ETag, body with timestamps and ids masked) must be equal; callers: root and a userplus account that owns the bucket; distinct = (caller, program)", depth))
+	r.Rule(fmt.Sprintf("every program of length <= %d over 26 (30 thorough) bucket, object, tagging, policy, listing and multipart operations (three of them signed with a wrong secret) is executed twice from an empty store: through a gateway whose backend is s3proxy pointed at an endpoint process (a posix versitygw on loopback TCP), and against that endpoint directly; after every step 23 read requests (GET whole / ranges, HEAD, attributes, tagging, listings v1/v2 with prefix / delimiter / max-keys, uploads, parts, bucket tagging / policy / ACL / versioning) are issued on both sides and every response (status, error code, content headers, user metadata, ETag, body with timestamps and ids masked) must be equal; callers: root and a userplus account that owns the bucket; distinct = (caller, program)", depth))
 	r.Assume("the 'other S3 endpoint' is versitygw itself (posix backend) in a child process; error documents are compared by status and code only")
 	ops := c18Ops(r.Thorough())
 	var progs [][]int
@@ -429,6 +455,29 @@ func C18(r *ck.Run) {
 			}
 		}
 	}
+	// longer, hand-picked histories on top of the enumerated ones: a null version, versioning switched on, a newer version
+	byName := func(names ...string) []int {
+		var p []int
+		for _, n := range names {
+			found := false
+			for i := range ops {
+				if ops[i].Name == n {
+					p = append(p, i)
+					found = true
+				}
+			}
+			if !found {
+				ck.Fatal("c18: no operation %q", n)
+			}
+		}
+		return p
+	}
+	progs = append(progs,
+		byName("CreateBucket", "PutObject small+meta", "PutBucketVersioning Enabled", "PutObject empty", "DeleteObject versionId=null"),
+		byName("CreateBucket", "PutObject small+meta", "PutBucketVersioning Enabled", "PutObject empty", "DeleteObject", "DeleteObject versionId=null"),
+		byName("CreateBucket", "PutObject small+meta", "PutObjectTagging", "PutObjectTagging empty tag set", "PutObjectTagging"),
+		byName("CreateBucket", "PutBucketVersioning Enabled", "PutObject small+meta", "PutObject empty", "DeleteObject", "PutObject small+meta"),
+	)
 	r.Extra("programs", len(progs))
 	r.Sharded(16, func() {
 		e := newC18Env()
@@ -603,4 +652,27 @@ func firstDiffElem(a, b string) string {
 		return a[i:]
 	}
 	return a[i : i+j+1]
+}
+
+// maskVersionIds replaces generated version ids (not "null") in a document.
+var c18EmptyElem = regexp.MustCompile(`<([A-Za-z0-9]+)></([A-Za-z0-9]+)>|<[A-Za-z0-9]+/>`)
+
+func maskVersionIds(s string) string {
+	out := ""
+	for {
+		i := strings.Index(s, "<VersionId>")
+		if i < 0 {
+			return out + s
+		}
+		j := strings.Index(s[i:], "</VersionId>")
+		if j < 0 {
+			return out + s
+		}
+		v := s[i+len("<VersionId>") : i+j]
+		if v != "null" && v != "" {
+			v = "id"
+		}
+		out += s[:i] + "<VersionId>" + v + "</VersionId>"
+		s = s[i+j+len("</VersionId>"):]
+	}
 }
